@@ -16,11 +16,12 @@ ASSUMPTIONS = ["rail_rep() returning None when rails exist but none feeds a comp
 def gen_fn(rng):
     if rng.random() < 0.12:
         return gen.gen_system(rng, phases=0.3, p_rail=0.0, max_nodes=10)
-    return gen.gen_system(rng, phases=0.5, p_rail=0.6, p_limits=0.5, p_rt=0.3, p_mux=0.5, max_nodes=16, p_neg_src_rs=0.0)
+    return gen.gen_system(rng, phases=0.5, p_rail=0.6, p_limits=0.5, p_rt=0.3, p_mux=0.5, max_nodes=16, p_neg_src_rs=0.0, p_dup=0.2)
 
 
 def one(ctx, desc, kw=None):
-    kw = kw or {"vtol": 1e-10, "itol": 1e-10}
+    kw = kw or desc.get("_solve_kw") or {"vtol": 1e-10, "itol": 1e-10}
+    desc["_solve_kw"] = dict(kw)          # kept with the case so that a replay uses the same call arguments
     sys_, df, err = solved.solve_case(desc, kw)
     if err is not None:
         ctx.stats["outcome:%s:%s" % (err[0], sysdesc.exc_class(err[1]))] += 1
@@ -37,7 +38,7 @@ def one(ctx, desc, kw=None):
     if e is not None:
         ctx.oracle(desc, "rail_rep_raises", "rail_rep", {"cls": type(e).__name__}, {"exception": repr(e)})
         return False
-    model = solved.cert(ctx.drv, desc, obs)
+    model = solved.cert(ctx.drv, desc, obs, ta=kw.get("ta", 25.0))
     ctx.traces += 1
     if not model.get("ok"):
         ctx.corr(desc, "constructor: the model rejects a component the implementation accepted", model)
@@ -75,7 +76,10 @@ def run(ctx):
             one(ctx, k["witness_desc"])
     n, skipped = ctx.n(200, 5000), 0
     for _ in range(n):
-        skipped += bool(one(ctx, gen_fn(ctx.rng)))
+        kw = {"vtol": 1e-10, "itol": 1e-10}
+        if ctx.rng.random() < 0.5:
+            kw["ta"] = float("%.3g" % ctx.rng.uniform(-40, 140))     # peak-temperature limits make the warnings depend on ta
+        skipped += bool(one(ctx, gen_fn(ctx.rng), kw))
     if skipped > 0.2 * n:
         raise RuntimeError("too many unbuildable cases")
 
